@@ -646,6 +646,7 @@ func linkFromScript(sc *hysim.Script) simnet.LinkCfg {
 		ReorderExtra: time.Duration(sc.Get("net_reorder_us", 3000)) * time.Microsecond,
 		RateBps:      sc.Get("net_rate", 0),
 		QueueBytes:   sc.Get("net_queue", 0),
+		MTU:          int(sc.Get("net_mtu", 0)),
 	}
 }
 
